@@ -3,6 +3,7 @@ package main
 import (
 	"go/types"
 	"fmt"
+	"go/constant"
 	"go/token"
 	"sort"
 	"strings"
@@ -85,6 +86,7 @@ func (l mapLoop) earlyExits() []*ssa.BasicBlock {
 }
 
 func runC09(c *Ctx) {
+	runC09Leftovers(c)
 	runC09Satisfied(c)
 	borrow(c, "O10", "C07", "O7", "createQueueResourceAttrs", "each resource is divided by the queues' quota, limit and over-quota weight FOR THAT RESOURCE: a weight taken from another resource hands the surplus of one resource out in the proportions configured for another")
 	p, fx := c.P, c.Fx
@@ -699,5 +701,95 @@ func isCallNamedInstr(name string) func(ssa.Instruction) bool {
 	return func(in ssa.Instruction) bool {
 		cc, ok := in.(ssa.CallInstruction)
 		return ok && calleeOf(cc) != nil && calleeOf(cc).Name() == name
+	}
+}
+
+// runC09Leftovers (O11, O12): "surplus stays undistributed only if every queue is satisfied".
+//   O11 — the distribution loops stop on the running amount only when it is exactly exhausted: a comparison of the
+//         amount with anything but 0 (“less than one unit left”) strands the fraction that fractional requests leave;
+//   O12 — in the pass that hands back the rounded-off units, every queue taken from the ordered list receives its
+//         unit: a queue that is popped and skipped is gone from the list, and its unit stays with nobody.
+func runC09Leftovers(c *Ctx) {
+	const pkg = "pkg/scheduler/plugins/proportion/resource_division"
+	n := 0
+	for _, name := range []string{"divideUpToFairShare", "divideRemainingResource"} {
+		f := c.Anchor("O11", pkg, "", name)
+		if f == nil {
+			continue
+		}
+		// values that carry the running amount: parameter 0 and what is derived from it by φ and ±
+		amount := map[ssa.Value]bool{ssa.Value(f.Params[0]): true}
+		for changed := true; changed; {
+			changed = false
+			for _, b := range f.Blocks {
+				for _, in := range b.Instrs {
+					v, isV := in.(ssa.Value)
+					if !isV || amount[v] {
+						continue
+					}
+					switch x := in.(type) {
+					case *ssa.Phi:
+						for _, e := range x.Edges {
+							if amount[e] {
+								amount[v], changed = true, true
+							}
+						}
+					case *ssa.BinOp:
+						if (x.Op == token.SUB || x.Op == token.ADD) && amount[x.X] {
+							amount[v], changed = true, true
+						}
+					}
+				}
+			}
+		}
+		for _, b := range f.Blocks {
+			iff, ok := b.Instrs[len(b.Instrs)-1].(*ssa.If)
+			if !ok {
+				continue
+			}
+			bo, ok := iff.Cond.(*ssa.BinOp)
+			if !ok || !amount[bo.X] {
+				continue
+			}
+			k, isC := bo.Y.(*ssa.Const)
+			if !isC {
+				continue
+			}
+			n++
+			zero := k.Value != nil && constant.Sign(constant.ToFloat(k.Value)) == 0
+			okCmp := zero && (bo.Op == token.EQL || bo.Op == token.NEQ || bo.Op == token.LEQ || bo.Op == token.GTR)
+			c.Check(okCmp, "O11", "RET", fmt.Sprintf("%s: the running amount is only tested for exhaustion (%s %s)", funcKey(f), bo.Op, k.Value), instrPos(bo), "compared with 0",
+				fmt.Sprintf("the amount still to distribute is compared with %s %s: the distribution stops (or skips) while a fraction is left — with fractional GPU requests unsatisfied queues of the same priority go without it, or a lower priority gets it", bo.Op, k.Value))
+		}
+	}
+	c.Floor("O11", "RET comparisons of the running amount", n, 2)
+
+	if f := c.Anchor("O12", pkg, "", "divideRemainingResource"); f != nil {
+		m := 0
+		for _, in := range instrsIn(f, func(in ssa.Instruction) bool {
+			cc, ok := in.(ssa.CallInstruction)
+			return ok && calleeOf(cc) != nil && calleeOf(cc).Name() == "Pop"
+		}) {
+			m++
+			isAdd := func(x ssa.Instruction) bool {
+				cc, ok := x.(ssa.CallInstruction)
+				return ok && calleeOf(cc) != nil && calleeOf(cc).Name() == "AddResourceShare"
+			}
+			h := loopHeaderOf(in.Block())
+			if h == nil {
+				c.Viol("O12", "MPT", funcKey(f)+": every queue taken from the list receives its unit", instrPos(in), "the queues are not popped in a loop")
+				continue
+			}
+			_, path, found := reachAvoiding([]cfgPos{afterInstr(in)}, func(x ssa.Instruction) bool {
+				if x == h.Instrs[0] {
+					return true
+				}
+				_, isRet := x.(*ssa.Return)
+				return isRet
+			}, isAdd, nil)
+			c.Check(!found, "O12", "MPT", funcKey(f)+": every queue taken from the list receives its unit", instrPos(in), "Pop is followed by AddResourceShare on every path",
+				"a queue can be popped from the remainder list without being given its unit ("+pathStr(path)+"): the unit stays undistributed although that queue — and possibly no other — still requests it")
+		}
+		c.Floor("O12", "MPT pops of the remainder list", m, 1)
 	}
 }
